@@ -87,7 +87,11 @@ func (l *listener) AcceptWithContext(ctx context.Context) (net.Conn, error) {
 		}
 
 		if errors.Is(err, yamux.ErrSessionShutdown) || errors.Is(err, net.ErrClosed) {
-			return nil, ErrClosed
+			// The session is also shutdown when the server closes the
+			// connection, so only stop if the listener itself was closed.
+			if l.closeCtx.Err() != nil {
+				return nil, ErrClosed
+			}
 		}
 
 		l.logger.Warn("disconnected; reconnecting", zap.Error(err))
